@@ -23,7 +23,8 @@ RULE = ('programs = LUAGEN model trees of the dialect (all statement kinds, PICO
         'unchanged. Non-trivial = >= 6 tokens and (a symbol/number adjacency or a line-scoped construct); distinct by '
         '(source, config).'
         ' Part "names": programs of 26-200 distinct identifiers from C02\'s population generator (underscore names, would-be generated names, glyph names) under the same oracle, incl. \'no two identifiers written as one\'. Every library minification is run twice on the same Lua object; if the second output differs it is the one judged.'
-        " A number directly followed by a '.'-token in the OUTPUT that was not glued in the input counts as a fusion (Lua/PICO-8 take the dots into the numeral).")
+        " A number directly followed by a '.'-token in the OUTPUT that was not glued in the input counts as a fusion (Lua/PICO-8 take the dots into the numeral)."
+        ' Part "header_names": kept identifiers of the form __word__ alone on an indented line (9 statement shapes x 11 names) through luamin / file.to_file / build: the written .p8 must still hold the program.')
 ASSUMPTIONS = ['lexical rules are represented by vlib/reflex.py (no Lua/PICO-8 binary in the sandbox)',
                'renaming injectivity and reserved names are C02\'s clauses; here only "one function"',
                'number spelling is compared by value']
@@ -526,10 +527,45 @@ def part_names(ctx):
             shrink=not ctx.quick)
 
 
+# identifiers of the form __word__ that end up alone on a line: at column 0 such a line reads as a section header in a
+# .p8 file (in the input they are indented, which the format tells apart)
+HEADER_NAMES = (b'__gfx__', b'__lua__', b'__label__', b'__map__', b'__sfx__', b'__music__', b'__gff__', b'__a__b__',
+                b'__x__', b'__init__', b'__9__')
+HEADER_NAME_SHAPES = (b'x=\n %s\ny=2\n', b'f(\n\t%s\n)\n', b'local v =\n  %s\nprint(v)\n', b'y = x +\n %s\nz=1\n',
+                      b'%s = 1\nq=\n  %s\n', b' %s\n()\nw=3\n', b'  -- title\n  %s\n   .x=1\n', b'do return\n %s\nend\n',
+                      b't={\n %s\n}\n')
+
+
+def header_name_sources():
+    for i, shape in enumerate(HEADER_NAME_SHAPES):
+        for j, name in enumerate(HEADER_NAMES):
+            if (i + j) % 3 == 0 or j < 2:
+                yield shape.replace(b'%s', name), name
+
+
+def part_header_names(ctx):
+    """A kept identifier of the form __word__ alone on an output line must not come out at column 0 of a .p8 file."""
+    k = 0
+    for src, name in header_name_sources():
+        for config in ('keep_all', 'keep_file', 'default'):
+            for via in ('luamin_p8', 'file_p8', 'build', 'lib'):
+                k += 1
+                if k % ctx.nshards != ctx.shard or (config == 'default' and via != 'luamin_p8'):
+                    continue
+                keep_body = name + b'\n' if config == 'keep_file' else b''
+                case = {'source': src, 'config': config, 'keep': keep_body, 'via': via}
+                run_case(src, config, keep_body, (), case, via)
+                ctx.stats.case(src + config.encode() + via.encode(), config != 'default',
+                               {'source': show(src, 60), 'config': config, 'via': via} if k % 40 == 1 else None,
+                               ['header_like_name_alone_on_a_line', 'cfg_' + config, 'via_' + via])
+
+
 def parts(tier):
     if tier == 'quick':
-        return [('programs', part_programs, 8), ('table', part_table, 6), ('names', part_names, 2)]
-    return [('programs', part_programs, 9), ('table', part_table, 5), ('names', part_names, 2)]
+        return [('programs', part_programs, 8), ('table', part_table, 6), ('names', part_names, 2),
+                ('header_names', part_header_names, 1)]
+    return [('programs', part_programs, 9), ('table', part_table, 5), ('names', part_names, 2),
+            ('header_names', part_header_names, 1)]
 
 
 def replay(case):
@@ -546,7 +582,8 @@ def vacuity(total, tier):
     msgs = []
     for lab in ('adj_symnum', 'adj_sym_sym', 'adj_number_dot', 'adj_minus_minus', 'adj_bracket_longstring',
                 'line_scoped', 'cfg_default', 'cfg_keep_all', 'cfg_keep_file', 'via_luamin_p8', 'via_luamin_png',
-                'via_build', 'via_file_p8', 'via_luamin_two_carts', 'mode_minimal', 'many_names_with_underscore_name'):
+                'via_build', 'via_file_p8', 'via_luamin_two_carts', 'mode_minimal', 'many_names_with_underscore_name',
+                'header_like_name_alone_on_a_line'):
         if total.classes.get(lab, 0) < 3:
             msgs.append('class %s seen %d times' % (lab, total.classes.get(lab, 0)))
     if total.classes.get('table_cases', 0) < 30000:
